@@ -13,6 +13,9 @@ The model follows the code after the repairs proposed_fixes/C02-1 (`_format_name
 an empty First part) and C02-2 (BibTeXML reader: role detection on the lower-cased tag).
 -/
 import PybtexModel.Lemmas.BibWriteChain
+import PybtexModel.Lemmas.BibWriteQuant
+import PybtexModel.Lemmas.BibWriteSerial
+import PybtexModel.Lemmas.BibWriteRepr
 import PybtexModel.Props.C04
 
 namespace Pybtex.Props
@@ -408,14 +411,215 @@ are closed under it. -/
 theorem C02_lower_only_case (d : BibData) :
     ((∃ y, WFDbTree y d = true) → dbLower d = (lowerSpec d, [])) ∧
     (lowerSpec d).preamble = d.preamble ∧
-    (lowerSpec d).entries.map (·.key) = d.entries.map (fun e => lower e.key) ∧
+    (lowerSpec d).entries.map (·.key) = d.entries.map (fun e => lowerU e.key) ∧
     (lowerSpec d).entries.map (·.origType) = d.entries.map (·.type) ∧
     (lowerSpec d).entries.map (fun e => e.fields.map (·.2)) = d.entries.map (fun e => e.fields.map (·.2)) ∧
-    (lowerSpec d).entries.map (fun e => e.fields.map (·.1)) = d.entries.map (fun e => e.fields.map (lower ·.1)) ∧
+    (lowerSpec d).entries.map (fun e => e.fields.map (·.1)) = d.entries.map (fun e => e.fields.map (lowerU ·.1)) ∧
     (lowerSpec d).entries.map (fun e => e.persons.map (·.2)) = d.entries.map (fun e => e.persons.map (·.2)) ∧
-    (lowerSpec d).entries.map (fun e => e.persons.map (·.1)) = d.entries.map (fun e => e.persons.map (lower ·.1)) ∧
+    (lowerSpec d).entries.map (fun e => e.persons.map (·.1)) = d.entries.map (fun e => e.persons.map (lowerU ·.1)) ∧
     (∀ f, inDomain f d = true → inDomain f (lowerSpec d) = true) := by
   refine ⟨fun ⟨y, hy⟩ => dbLower_spec hy, rfl, ?_, ?_, ?_, ?_, ?_, ?_, fun f hf => inDomain_lower hf⟩ <;>
     simp [lowerSpec, lowerEntrySpec, Function.comp_def]
+
+/-! ### 5. identifiers beyond ASCII -/
+
+/-- **The readers' name tests under `str.lower()`.**  The code decides "is this a person role" by
+`name.lower() in Person.valid_roles` and "is this the type key" by `name.lower() == 'type'`, with
+Python's Unicode `str.lower()`; the models use the ASCII lower-casing of the `.bib` reader for these
+two tests.  Both give the same answer for EVERY string: the only non-ASCII character with an ASCII
+lower-case form is U+212A KELVIN SIGN (→ `k`), and none of the words contains a `k` (facts checked
+by kernel evaluation over the whole regenerated lower-case table).  Lower-casing an identifier
+changes neither test, never yields an ASCII capital, and stays inside `lowerDomain`. -/
+theorem C02_name_tests_unicode (n : Str) :
+    isPersonField (lowerU n) = isPersonField n ∧
+    (lowerU n = "type".toList ↔ lower n = "type".toList) ∧
+    (∀ w ∈ Gen.personRoles.map lower, lowerU n = w ↔ lower n = w) ∧
+    lower (lowerU n) = lowerU n ∧ lowerU (lowerU n) = lowerU n ∧
+    (lowerDomain n = true → lowerDomain (lowerU n) = true) ∧
+    (isAsciiStr n = true → lowerU n = lower n) := by
+  refine ⟨isPersonField_lowerU n, lowerU_eq_type n, fun w hw => ?_, lower_lowerU n, lowerU_idem n,
+    lowerDomain_lowerU, lowerU_ascii⟩
+  have := personRoles_plain
+  simp only [List.all_eq_true] at this
+  exact lowerU_eq_word (this w hw)
+
+/-- non-ASCII identifiers: `lower()` follows `str.lower()` (Ä → ä, ẞ → ß, ǅ → ǆ, Ж → ж; `ß` stays, it is
+not case-folded to `ss`), the YAML / BibTeXML domains hold such databases, the BibTeX domain does not
+(keys are asked to be ASCII there) -/
+def c02DbU : BibData :=
+  { entries := [{ key := "ÄB".toList, type := "étude".toList, origType := "Étude".toList,
+                  fields := [("Straße".toList, "x".toList), ("NIÑO".toList, "y".toList)], persons := [] },
+                { key := "ẞǅЖ".toList, type := "misc".toList, origType := "misc".toList, fields := [], persons := [] }] }
+
+theorem C02_name_tests_unicode_nonvacuous :
+    WFDbTree true c02DbU = true ∧ WFDbTree false c02DbU = true ∧ WFDb c02DbU = false ∧
+    (lowerSpec c02DbU).entries.map (fun e => (e.key, e.origType, e.type, e.fields.map (·.1))) =
+      [("äb".toList, "étude".toList, "étude".toList, ["straße".toList, "niño".toList]),
+       ("ßǆж".toList, "misc".toList, "misc".toList, [])] ∧
+    (dbLower c02DbU).1.entries.map (·.key) = ["äb".toList, "ßǆж".toList] ∧ (dbLower c02DbU).2 = [] ∧
+    -- the Kelvin sign: lower-cased to an ASCII `k`
+    lowerU [Char.ofNat 0x212A] = "k".toList ∧ isPersonField "AUTHOR".toList = true := by
+  decide +kernel
+
+/-! ### 6. the stated quantifier and the four recorded findings
+
+The property quantifies over "every database whose values are brace-balanced TeX strings
+(white-space-normalised for BibTeX) and whose persons are expressible in BibTeX name syntax":
+`WFDbQ f` (`Spec/BibWrite.lean`).  The claimed domains `inDomain f` are smaller.  What is missing is
+exactly four classes of databases on which the code does NOT round-trip; each has a kernel-evaluated
+counterexample below and an entry in `known_findings.json`. -/
+
+/-- **Round trip on the stated quantifier, minus the four recorded restrictions.**  A database of
+the quantifier's domain for the format `f` in which every role is author / editor (any letter case)
+with at least one person, which has no field called `type` when `f` is YAML, and none of `# % & _ ~`
+in a value, a written name list or the preamble when `f` is BibTeX, lies in the claimed domain and
+is read back as written. -/
+theorem C02_quantifier_partial (S : Serial) (henc : ∀ s, Safe s = true → S.encode s = s)
+    (hY : ∀ t, S.loadY (S.dumpY t) = some t) (hX : ∀ t, S.loadX (S.dumpX t) = some t)
+    (f : Fmt) (d : BibData) (hq : WFDbQ f d = true) (hn : noFinding f d = true) :
+    inDomain f d = true ∧ roundTrip S f d = .ok (canonFor f d) :=
+  ⟨inDomain_of_Q hq hn, roundTrip_ok ⟨henc, hY, hX⟩ (inDomain_of_Q hq hn)⟩
+
+/-- **The claimed domain is exactly the stated quantifier minus the four restrictions**: nothing
+else is excluded silently (for each format). -/
+theorem C02_quantifier_exact (f : Fmt) (d : BibData) :
+    inDomain f d = true ↔ (WFDbQ f d = true ∧ noFinding f d = true) :=
+  inDomain_iff_Q f d
+
+def c02Knuth : Person := { first := ["Donald".toList], middle := ["E.".toList], last := ["Knuth".toList] }
+def c02One (ty : String) (fields : List (String × String)) (persons : List (Str × List Person)) : BibData :=
+  { entries := [{ key := "k".toList, type := ty.toList, origType := ty.toList,
+                  fields := fields.map fun f => (f.1.toList, f.2.toList), persons := persons }] }
+/-- `add_person(Person('Knuth, Donald E.'), 'translator')` -/
+def c02DbRole : BibData := c02One "book" [("title", "T")] [("translator".toList, [c02Knuth])]
+/-- `persons['author'] = []` -/
+def c02DbEmpty : BibData := c02One "book" [("title", "T")] [("author".toList, [])]
+/-- a techreport with its standard field `type` -/
+def c02DbTypeF : BibData := c02One "techreport" [("title", "T"), ("type", "Research Note")] []
+def c02DbFive : BibData := c02One "misc" [("note", "R&D 100% a_b #1 x~y")] []
+
+theorem C02_quantifier_partial_nonvacuous :
+    (∀ f ∈ [Fmt.bibtex, Fmt.yaml, Fmt.bibtexml], WFDbQ f c02Db = true ∧ noFinding f c02Db = true) ∧
+    -- the four witnesses lie in the quantifier's domain of every format, and outside the claimed one
+    (∀ d ∈ [c02DbRole, c02DbEmpty, c02DbTypeF, c02DbFive],
+      ∀ f ∈ [Fmt.bibtex, Fmt.yaml, Fmt.bibtexml], WFDbQ f d = true) ∧
+    (∀ f ∈ [Fmt.bibtex, Fmt.yaml, Fmt.bibtexml], inDomain f c02DbRole = false ∧ inDomain f c02DbEmpty = false) ∧
+    inDomain .yaml c02DbTypeF = false ∧ inDomain .bibtex c02DbFive = false ∧
+    -- a field called `type` is no obstacle for BibTeX / BibTeXML, the five characters none for YAML / BibTeXML
+    inDomain .bibtex c02DbTypeF = true ∧ inDomain .bibtexml c02DbTypeF = true ∧
+    inDomain .yaml c02DbFive = true ∧ inDomain .bibtexml c02DbFive = true := by
+  decide +kernel
+
+/-- what a reader makes of an entry: the type as written, the fields, the roles -/
+structure C02View where
+  ty : Str
+  fields : List (Str × Str)
+  persons : List (Str × List Person)
+deriving DecidableEq
+
+def c02Seen (r : Except WErr ReadRes) : Option (List C02View) :=
+  match r with
+  | .ok x => some (x.db.entries.map fun e => ⟨e.origType, e.fields, e.persons⟩)
+  | .error _ => none
+
+def c02Bib (encode : Str → Str) (d : BibData) : Option (List C02View) :=
+  match writeStream encode d with
+  | .ok text => c02Seen (readFmt ⟨encode, fun _ => [], fun _ => none, fun _ => [], fun _ => none⟩ .bibtex text)
+  | .error _ => none
+
+/-- **Finding `C02-role-not-author-editor`** (the round trip fails inside the stated quantifier): a
+person stored under the role `translator` comes back as a TEXT FIELD called translator in every
+format — BibTeX: the written name; YAML: `str()` of the list of dictionaries; BibTeXML: the
+indentation in front of the first person element — and the entry has no persons any more. -/
+theorem C02_other_role_neg :
+    c02Bib id c02DbRole =
+      some [⟨"book".toList, [("translator".toList, "Knuth, Donald E.".toList), ("title".toList, "T".toList)], []⟩] ∧
+    c02Seen (ofDictYaml (toDictYaml c02DbRole)) =
+      some [⟨"book".toList, [("title".toList, "T".toList),
+        ("translator".toList, "[OrderedDict({'first': 'Donald', 'middle': 'E.', 'last': 'Knuth'})]".toList)], []⟩] ∧
+    c02Seen (ofTreeXml (toTreeXml c02DbRole)) =
+      some [⟨"book".toList, [("title".toList, "T".toList), ("translator".toList, "\n                ".toList)], []⟩] := by
+  decide +kernel
+
+/-- **Finding `C02-empty-role`**: a role without persons is gone after every round trip. -/
+theorem C02_empty_role_neg :
+    c02Bib id c02DbEmpty = some [⟨"book".toList, [("title".toList, "T".toList)], []⟩] ∧
+    c02Seen (ofDictYaml (toDictYaml c02DbEmpty)) = some [⟨"book".toList, [("title".toList, "T".toList)], []⟩] ∧
+    c02Seen (ofTreeXml (toTreeXml c02DbEmpty)) = some [⟨"book".toList, [("title".toList, "T".toList)], []⟩] ∧
+    c02DbEmpty.entries.map (·.persons) = [[("author".toList, [])]] := by
+  decide +kernel
+
+/-- **Finding `C02-yaml-type-field`**: through YAML the value of a field spelled `type` becomes the
+entry type and the field is gone; spelled `Type` the field is dropped.  BibTeX and BibTeXML carry it. -/
+theorem C02_yaml_type_neg :
+    c02Seen (ofDictYaml (toDictYaml c02DbTypeF)) = some [⟨"Research Note".toList, [("title".toList, "T".toList)], []⟩] ∧
+    c02Seen (ofDictYaml (toDictYaml c02DbType)) = some [⟨"a".toList, [], []⟩] ∧
+    c02Seen (ofTreeXml (toTreeXml c02DbTypeF)) =
+      some [⟨"techreport".toList, [("title".toList, "T".toList), ("type".toList, "Research Note".toList)], []⟩] ∧
+    c02Bib id c02DbTypeF =
+      some [⟨"techreport".toList, [("title".toList, "T".toList), ("type".toList, "Research Note".toList)], []⟩] := by
+  decide +kernel
+
+/-- **Finding `C02-five-characters`**: with the encoder that re-escapes `# % & _ ~` (`encodeLatex`:
+what latexcodec does to these five characters) the value is written escaped and read back escaped. -/
+theorem C02_five_neg :
+    writeStream encodeLatex c02DbFive =
+      .ok "@misc{k,\n    note = \"R\\&D 100\\% a\\_b \\#1 x\\textasciitilde y\"\n}\n".toList ∧
+    c02Bib encodeLatex c02DbFive =
+      some [⟨"misc".toList, [("note".toList, "R\\&D 100\\% a\\_b \\#1 x\\textasciitilde y".toList)], []⟩] ∧
+    c02Bib id c02DbFive = some [⟨"misc".toList, [("note".toList, "R&D 100% a_b #1 x~y".toList)], []⟩] := by
+  decide +kernel
+
+/-! ### 7. the serialiser hypotheses have a witness -/
+
+/-- **A lossless `Serial` exists.**  `Ser.witness` (`Lemmas/BibWriteSerial.lean`: the identity
+encoder, value trees and element trees printed in a prefix code and parsed back) satisfies the three
+serialiser hypotheses of `C02_yaml_logic`, `C02_xml_logic`, `C02_chain`, `C02_lower` for EVERY tree;
+instantiated with it the chain theorems hold without any hypothesis left: a chain through all three
+formats gives the example database back, and with lower-casing its lower-cased entries. -/
+theorem C02_serial_witness :
+    (∀ s, Safe s = true → Ser.witness.encode s = s) ∧
+    (∀ t, Ser.witness.loadY (Ser.witness.dumpY t) = some t) ∧
+    (∀ t, Ser.witness.loadX (Ser.witness.dumpX t) = some t) ∧
+    chain Ser.witness true [.bibtex, .yaml, .bibtexml, .yaml] c02Db =
+      .ok (chainDb [.bibtex, .yaml, .bibtexml, .yaml] c02Db) ∧
+    (∃ d', chain Ser.witness false [.yaml, .bibtex, .bibtexml] c02Db = .ok d' ∧
+      d'.entries = (lowerSpec c02Db).entries) := by
+  have h1 : ∀ s, Safe s = true → Ser.witness.encode s = s := fun _ _ => rfl
+  have h2 : ∀ t, Ser.witness.loadY (Ser.witness.dumpY t) = some t := Ser.loadY_dumpY
+  have h3 : ∀ t, Ser.witness.loadX (Ser.witness.dumpX t) = some t := Ser.loadX_dumpX
+  refine ⟨h1, h2, h3, C02_chain Ser.witness h1 h2 h3 _ c02Db ?_, ?_⟩
+  · decide +kernel
+  · obtain ⟨d', a, b, _⟩ := C02_lower Ser.witness h1 h2 h3 .yaml .bibtex [.bibtexml] c02Db (by decide +kernel)
+    exact ⟨d', a, b⟩
+
+/-! ### 8. repr / eval -/
+
+/-- **`eval(repr(db))`.**  `Entry.__repr__` prints the constructor call `Entry(type as written,
+fields=[(name, value), …], persons={role: [Person(str(p)), …]})` (after repair C02-4; `entryRepr`),
+`BibliographyData.__repr__` the list of `(key, Entry(…))` pairs and the preamble list (`dbRepr`).
+Evaluating the calls (`Entry.__init__`, `Person(text)`, `add_entry`; Python's own `repr` / `eval` of
+strings, lists, tuples and dictionaries taken to be lossless) gives the database back — keys, types as
+written, fields, every role (ANY role name, empty roles too) with its persons, and the preamble LIST
+unjoined — whenever keys / field names / role names are distinct up to case and the persons are
+`WFPerson` (their `str()` is read back: `C02_person_roundtrip`).  Nothing is reported. -/
+theorem C02_repr_logic (d : BibData) (h : reprOkDb d = true) :
+    dbEval (dbRepr d) = .ok (d, []) ∧
+    (∀ e ∈ d.entries, entryEval e.key (entryRepr e) = .ok e) := by
+  refine ⟨dbEval_repr h, fun e he => entryEval_repr ?_⟩
+  simp only [reprOkDb, Bool.and_eq_true, List.all_eq_true] at h
+  exact h.2 e he
+
+theorem C02_repr_logic_nonvacuous :
+    reprOkDb c02Db = true ∧
+    -- the four finding witnesses are fine for repr / eval (the role translator, the empty role, the field type)
+    reprOkDb c02DbRole = true ∧ reprOkDb c02DbEmpty = true ∧ reprOkDb c02DbTypeF = true ∧ reprOkDb c02DbU = true ∧
+    entryRepr c02E1 =
+      { ty := "Article".toList,
+        fields := [("Title".toList, "The {\\TeX}book, vol. 1 = @A".toList), ("note".toList, "q \"x\" q".toList),
+                   ("year".toList, "1984".toList)],
+        persons := [("AUTHOR".toList, ["van Beethoven, Jr, Ludwig X.".toList, "Last, Jr,".toList]),
+                    ("editor".toList, ["de la Vall{\\'e}e {Poussin, and Co} O\"Q\\x, {\\'E}mile".toList])] } := by
+  decide +kernel
 
 end Pybtex.Props
